@@ -30,7 +30,8 @@ class Ctx:
         base = os.path.join(VERIF, ".run")
         os.makedirs(base, exist_ok=True)
         self.tmp = tempfile.mkdtemp(prefix="%s-%s-" % (prop, tier), dir=base)
-        atexit.register(lambda: shutil.rmtree(self.tmp, ignore_errors=True))
+        if not os.environ.get("VERIF_KEEP"):
+            atexit.register(lambda: shutil.rmtree(self.tmp, ignore_errors=True))
         self.cov = dict(states=0, transitions=0, traces_validated_against_impl=0, samples=[],
                         evaluations=0, distinct_nontrivial=0, rule="", divergences=0,
                         clauses={}, known_findings_seen=[], checker_cmd="", tlc_runs=[],
